@@ -105,8 +105,15 @@ struct World {
     tasks: HashMap<usize, Task>,
     sleep_flag: HashMap<usize, Arc<AtomicBool>>,
     subscribe: Option<Rc<dyn Fn(usize, usize, u64)>>,
+    /// subscription moves still to come in the script: after the last one the harness drops the
+    /// source value under test (as a caller that subscribes a temporary does), so every subscription
+    /// has to live on what its own closures own
+    subs_left: usize,
     /// number of calls of user closures (map's f, filter's predicate, scan's reducer)
     evals: u64,
+    /// flatten: one puppet (one `Arc`) per inner id modulo 100, and the id it was last emitted as
+    inner_cache: HashMap<u64, Arc<Source<usize>>>,
+    inner_emitting: Vec<u64>,
     /// tree mode (no model to vet the script): the harness itself keeps the scripted sink conformant
     tree_mode: bool,
     tree_pull: bool,
@@ -242,10 +249,16 @@ fn perform(sub: usize, inp: Inp, tok: String) {
         Inp::Sub(s, aux) => {
             let f = w(|w| {
                 w.next_spawn = aux;
-                w.subscribe.clone()
+                w.subs_left = w.subs_left.saturating_sub(1);
+                if w.subs_left == 0 {
+                    w.subscribe.take()
+                } else {
+                    w.subscribe.clone()
+                }
             });
             if let Some(f) = f {
                 f(sub, s, aux);
+                // `f` - and with it, after the last subscription move, the source value - is dropped here
             }
         }
         Inp::Up(s, m) => {
@@ -383,7 +396,12 @@ fn mk_source<T: 'static>(port: usize, conv: fn(u64) -> T) -> Arc<Source<T>> {
                 let h: Arc<Sink<T>> = h;
                 let wrapped: Rc<dyn Fn(DMsg)> = Rc::new(move |m: DMsg| match m {
                     DMsg::H => h(Message::Handshake(mk_up_talkback::<T>(sub, port))),
-                    DMsg::D(v) => h(Message::Data(conv(v))),
+                    DMsg::D(v) => {
+                        let emitting = w(|w| w.inner_emitting.len());
+                        let d = conv(v);
+                        h(Message::Data(d));
+                        w(|w| w.inner_emitting.truncate(emitting));
+                    }
                     DMsg::T => h(Message::Terminate),
                     DMsg::E(id) => h(Message::Error(err_arc(id))),
                 });
@@ -401,9 +419,47 @@ fn num(v: u64) -> usize {
     v as usize
 }
 
-/// flatten: the outer datum `k` is the inner puppet source on port k+1
+/// flatten: the outer datum `k` is the inner puppet source on port k+1.  Data k and k+100, k+200, ..
+/// are the SAME source value (one `Arc`) emitted again: flatten must treat every emission as a new
+/// subscription, so the puppet presents its j-th subscription as port k+100j+1 and the model (which only
+/// knows fresh inner sources) sees the same history with distinct ids.
 fn inner_src(k: u64) -> Arc<Source<usize>> {
-    mk_source::<usize>(k as usize + 1, num)
+    let base = k % 100;
+    // the emission is in progress until the outer puppet's delivery returns (mk_source pops it)
+    let cached = w(|w| {
+        w.inner_emitting.push(k);
+        w.inner_cache.get(&base).cloned()
+    });
+    if let Some(a) = cached {
+        return a;
+    }
+    let a: Arc<Source<usize>> = Arc::new(
+        (move |msg: Message<Never, usize>| {
+            if let Message::Handshake(h) = msg {
+                let sub = cur_ctx();
+                // flatten subscribes an inner source during the delivery of the emission that carried it:
+                // the innermost emission of this source value still in progress names this subscription
+                let port = w(|w| {
+                    w.inner_emitting.iter().rev().find(|k| **k % 100 == base).copied().unwrap_or(base)
+                }) as usize
+                    + 1;
+                let h: Arc<Sink<usize>> = h;
+                let wrapped: Rc<dyn Fn(DMsg)> = Rc::new(move |m: DMsg| match m {
+                    DMsg::H => h(Message::Handshake(mk_up_talkback::<usize>(sub, port))),
+                    DMsg::D(v) => h(Message::Data(num(v))),
+                    DMsg::T => h(Message::Terminate),
+                    DMsg::E(id) => h(Message::Error(err_arc(id))),
+                });
+                w(|w| w.up_handler.insert((sub, port), wrapped));
+                peer_called(sub, format!("<sub{}", port));
+            } else {
+                rec(format!("<src{}:?notHandshake", base + 1));
+            }
+        })
+        .into(),
+    );
+    w(|w| w.inner_cache.insert(base, Arc::clone(&a)));
+    a
 }
 
 // ---------------------------------------------------------------- from_iter's iterator
@@ -428,6 +484,17 @@ impl Iterator for LogIter {
             None => rec("next:-".to_string()),
         }
         r
+    }
+    // an honest size_hint, as the iterators of Vec, arrays and ranges have: what is left is known exactly
+    // (an operator that trusted it instead of calling next() would show in the number of next() calls)
+    fn size_hint(&self) -> (usize, Option<usize>) {
+        match self.inf {
+            Some(_) => (usize::MAX, None),
+            None => {
+                let rem = self.xs.len().saturating_sub(self.pos);
+                (rem, Some(rem))
+            }
+        }
     }
 }
 
@@ -698,8 +765,10 @@ fn run_script(line: &str) -> String {
     let kv = parse_header(hs);
     let moves: Vec<Move> = ms.split_whitespace().map(parse_move).collect();
     W.with(|w| *w.borrow_mut() = World::default());
+    let n_subs = moves.iter().filter(|m| matches!(m, Move::In(_, Inp::Sub(_, _), _))).count();
     w(|w| {
         w.script = moves;
+        w.subs_left = n_subs;
         w.recording = true;
         w.subs = geti(&kv, "subs", 1) as usize;
         w.tree_mode = kv.get("op").map(|s| s == "tree").unwrap_or(false);
